@@ -16,6 +16,7 @@ pub fn unregister_child(pid: i32) {
 /// Kills every helper/target process this lane still owns.
 pub fn shutdown() {
     super::dumper::drop_dumper();
+    super::arena::drop_arena();
     let v: Vec<i32> = std::mem::take(&mut *CHILDREN.lock().unwrap());
     for pid in v {
         unsafe {
